@@ -61,6 +61,34 @@ theorem needCreate_err (r : Remote) (root : Nat) : ∀ (rev : List Str) (e : Err
         rw [← h]; exact ih e' he
       · cases h
 
+theorem needCreateSkip_err (r : Remote) (root : Nat) : ∀ (rev : List Str) (e : Err),
+    needCreateSkip r root rev = .error e → e ≠ .fuel := by
+  intro rev
+  induction rev with
+  | nil => intro e h; cases h
+  | cons x up ih =>
+    intro e h
+    unfold needCreateSkip at h
+    split at h
+    · cases h
+    · split at h
+      · rename_i e' he
+        injection h with h
+        rw [← h]; exact exists_err he
+      · cases h
+      · split at h
+        · rename_i e' he
+          injection h with h
+          rw [← h]; exact ih e' he
+        · cases h
+
+theorem needCreateNow_err (r : Remote) (root : Nat) (rev : List Str) (e : Err)
+    (h : needCreateNow r root rev = .error e) : e ≠ .fuel := by
+  unfold needCreateNow at h
+  split at h
+  · exact needCreateSkip_err r root rev e h
+  · exact needCreate_err r root rev e h
+
 theorem mkdAll_err : ∀ (l : List PPath) (r : Remote) (e : Err), mkdAll r l = .error e → e ≠ .fuel := by
   intro l
   induction l with
@@ -78,7 +106,7 @@ theorem makeDirectory_err {r : Remote} {p : PPath} {e : Err} (h : makeDirectory 
   split at h
   · rename_i e' he
     injection h with h
-    rw [← h]; exact needCreate_err _ _ _ _ he
+    rw [← h]; exact needCreateNow_err _ _ _ _ he
   · exact mkdAll_err _ _ _ h
 
 theorem read_err {l : Local} {p : PPath} {e : Err} (h : l.read p = .error e) : e ≠ .fuel := by
